@@ -1,4 +1,5 @@
 import SFV.Model.Transfer
+import SFV.Lemmas.TransferReg
 import SFV.Lemmas.Sh
 import SFV.Gen.CmdTemplates
 /-! # C22 — transfers reproduce the source data exactly
@@ -102,5 +103,32 @@ theorem quoted_transfer_template_verbatim (t : Template) (args : List (List Char
     lexLine (render t args) = specLine t args := by
   unfold lexLine specLine
   rw [feed_render_quoted t init args hq hp hs]
+
+/-! ### registration of the destination (on the registry model of C21) -/
+open SFV.Registry SFV.TransferReg
+
+/-- **`transfer_registers`**: after the registration steps of `transfer_data` the data manager knows a valid copy at the final
+    destination path on the destination location — writable or read-only, whatever the registry contained before -/
+theorem transfer_registers (s : St) (srcObj ldst : Nat) (final : Path) (writable : Bool) :
+    HasCopy (transferRegister s srcObj ldst final writable) final ldst := by
+  unfold transferRegister
+  simp only
+  have hput := put_hasCopy { (register s ldst final.dropLast).1 with
+      heap := (register s ldst final.dropLast).1.heap ++ [⟨ldst, final, true⟩] } final
+    (register s ldst final.dropLast).1.heap.length (by simp) (by simp [objPath]) (by simp [objValid])
+  have hloc : objLoc { (register s ldst final.dropLast).1 with
+      heap := (register s ldst final.dropLast).1.heap ++ [⟨ldst, final, true⟩] }
+      (register s ldst final.dropLast).1.heap.length = ldst := by simp [objLoc]
+  rw [hloc] at hput
+  cases writable with
+  | true => simpa using hput
+  | false =>
+    simp only [Bool.false_eq_true, if_false]
+    exact hasCopy_grows (grows_relate _ _ _) final ldst hput
+
+/-- non-vacuity: source `/s/x` registered on location 0, read-only transfer to `/d/x` on location 1: the node `/d/x` lists exactly
+    one valid object for location 1 (object 3: after `/s`, `/s/x`, `/d`), and `/s/x` is now also known for location 1 through the relation -/
+example : getLocs (transferRegister (register St.init 0 ["s", "x"]).1 (register St.init 0 ["s", "x"]).2 1 ["d", "x"] false) ["d", "x"] 1 = [3] := by
+  decide
 
 end SFV.C22
